@@ -8,6 +8,8 @@ import (
 	"go/types"
 	"sort"
 	"strings"
+
+	"golang.org/x/tools/go/ssa"
 )
 
 // Independent copy of the FIT base-type table (FIT SDK "Base Types", protocol 2.0).
@@ -172,6 +174,22 @@ func runC15(c *Ctx, r *Report) {
 		return
 	}
 	c15History(c, r)
+	// "a message the decoder treats as known has a type and a constructor": the decoder decides "known"
+	// with the known table itself, under the message number itself (decode scope; the encoder takes the number from the type table, C07)
+	{
+		roots, _ := c.rootFuncs(decodeRoots)
+		scope := c.reach(roots).module()
+		seenFn := map[*ssa.Function]bool{}
+		var uniq []*ssa.Function
+		for _, f := range scope {
+			if !seenFn[f] && fnPkgPath(f) == modPath {
+				seenFn[f] = true
+				uniq = append(uniq, f)
+			}
+		}
+		nC := c01KnownBeforeCtor(c, r, uniq)
+		r.need("constructor-table calls examined under C15", nC, 1)
+	}
 	kindHistory(c, r, "C15-7-kind-history", nil, "the field is decoded into, and encoded from, a Go value of the wrong kind")
 	info := c.fit.TypesInfo
 	_ = info
@@ -308,6 +326,10 @@ func runC15(c *Ctx, r *Report) {
 				continue
 			}
 			used[pf.Sindex] = num
+			if !st.Field(pf.Sindex).Exported() {
+				r.fail("C15-2-row", key, pos, fmt.Sprintf("the row designates %s.%s, which is not exported: reflect cannot set it when decoding (SetBytes / Set panic \"using value obtained using unexported field\") nor read it with Interface() when encoding", named.Obj().Name(), st.Field(pf.Sindex).Name()))
+				continue
+			}
 			if pf.Kind > 4 {
 				r.fail("C15-2-row", key, pos, fmt.Sprintf("kind %d > 4: parseDataFields default arm panics", pf.Kind))
 				continue
